@@ -117,9 +117,21 @@ SPACES = {
 DETERMINISTIC_DUMP = ('grid', 'sgrid', 'quasi', 'eagle')
 
 
+def _plain(v):
+  v = v.value if hasattr(v, 'value') else v
+  if isinstance(v, str):
+    return str(v)  # (numpy str_ -> str: same value, same repr)
+  if isinstance(v, bool):
+    return bool(v)
+  try:
+    return float(v)
+  except (TypeError, ValueError):
+    return v
+
+
 def pkey(s):
-  """Hashable parameters of a suggestion / trial."""
-  return tuple(sorted((k, v.value if hasattr(v, 'value') else v) for k, v in s.parameters.items()))
+  """Hashable parameters of a suggestion / trial, in plain Python types."""
+  return tuple(sorted((k, _plain(v)) for k, v in s.parameters.items()))
 
 
 def objective(params):
